@@ -21,7 +21,7 @@
 //! the mutex-protected one-shot port operation; the result is logged as `cret stop <n|-> ok|refused`.
 //!   `end <signature>`         | `word=<c> <m> <n> st=<status> handled=<ids|-> sup=<events> alive=<0|1>`
 //!
-//!   `stress <i> k= m= drain= stop=` | `sends=<id:res:t0:t1,…> handled=<ids> drain=<t0:t1|-> sup=<events> exited=<0|1>`
+//!   `stress <i> k= m= drain= stop=` | `sends=<id:res:t0:t1,…> handled=<ids> drain=<t0:t1|-> sup=<events> exited=<0|1> calls=<stop:n:ok|refused,kill:-:…|->`
 //!                               (free-running threads; t = tickets of one global counter; oracle only)
 //!
 //! usage: admission --seed S --cases N --out DIR [--enum-cap K] [--enum 0|1] [--stress N]
